@@ -175,6 +175,8 @@ def finding_key(v, detail):
 
 
 def replay(native, v):
+    if v['data'].get('op') == 'kani':
+        return kani_replay(v)
     d = v['data']
     model = d.get('model', {})
     op = d.get('op')
@@ -234,3 +236,20 @@ def replay_workers(native, d):
     p.wait(timeout=10)
     shutil.rmtree(root, ignore_errors=True)
     return ('panicked' in err_), {'run result': out, 'worker panics': err_.count('panicked'), 'stderr_tail': err_[-300:]}
+
+
+def extra_engines(tier, seed, args):
+    """engine E1: Kani on the compiled leaf functions (second, independent lowering)"""
+    from lib import kani
+    hs = [] if tier == 'quick' else ['detect_from_never_panics_utf8_5']
+    if not hs or getattr(args, 'only', None):
+        return {'inconclusive': [], 'violations': [], 'evidence': None}
+    return kani.extra(hs, 300 if tier == 'quick' else 1500, 'detect_from never panics on any valid UTF-8 string of <=5 bytes (real std, no stub)')
+
+
+def kani_replay(v):
+    """a failed Kani harness on the compiled code is already a statement about the real code; it is confirmed by
+    re-running the harness once more (deterministic) and reported with the failing checks"""
+    from lib import kani
+    r = kani.run_harness(v['data']['harness'], timeout_s=1500)
+    return r['status'] == 'failed', {'harness': v['data']['harness'], 'failed_checks': r['failed_checks']}
